@@ -107,7 +107,7 @@ class KGFnWrapper:
                     # Use the current definition
                     if len(args) != current.arity:
                         raise RuntimeError(f"Klong function called with {len(args)} but expected {current.arity}")
-                    fn_args = [np.asarray(x) if isinstance(x, list) else x for x in args]
+                    fn_args = [self.klong._backend.kg_asarray(x) if isinstance(x, list) else x for x in args]
                     return self.klong.call(KGCall(current.a, [*fn_args], current.arity))
             except KeyError:
                 # Symbol was deleted, fall through to original function
@@ -115,7 +115,7 @@ class KGFnWrapper:
 
         if len(args) != self.fn.arity:
             raise RuntimeError(f"Klong function called with {len(args)} but expected {self.fn.arity}")
-        fn_args = [np.asarray(x) if isinstance(x, list) else x for x in args]
+        fn_args = [self.klong._backend.kg_asarray(x) if isinstance(x, list) else x for x in args]
         return self.klong.call(KGCall(self.fn.a, [*fn_args], self.fn.arity))
 
 
